@@ -218,6 +218,13 @@ class ConnectionPool(object):
             # No longer waiting, even if the waiter was cancelled.
             self._host_pool_waiters[key] -= 1
 
+            # A waiter that gives up may be the last user of the host:
+            # no later release would clean up after it.
+            if not self._host_pool_waiters[key] and host_pool.empty() and \
+                    self._host_pools.get(key) is host_pool:
+                del self._host_pools[key]
+                del self._host_pool_waiters[key]
+
         return connection
 
     @asyncio.coroutine
@@ -298,7 +305,8 @@ class ConnectionPool(object):
             for key, pool in tuple(self._host_pools.items()):
                 yield from pool.clean(force=force)
 
-                if not self._host_pool_waiters[key] and pool.empty():
+                if self._host_pools.get(key) is pool and \
+                        not self._host_pool_waiters[key] and pool.empty():
                     del self._host_pools[key]
                     del self._host_pool_waiters[key]
 
